@@ -18,6 +18,7 @@ import (
 	"time"
 	"unsafe"
 
+	stdlog "log"
 	logslog "log/slog"
 
 	"github.com/hedzr/logg/slog"
@@ -50,6 +51,7 @@ type poolCall struct {
 	ArgKind int
 	Blank   bool // a blank Println(): no arguments at all
 	Slog    bool // through a log/slog logger derived (per goroutine) from one shared WithGroup handler
+	Bridge  bool // through a std log.Logger built on the logger (NewLogLogger)
 }
 
 type poolEnv struct {
@@ -64,6 +66,7 @@ type poolEnv struct {
 	hmu     sync.Mutex
 	hgrp    map[int]*logslog.Logger    // per logger: log/slog logger on it, WithGroup("req") - shared by all goroutines
 	hchild  map[[2]int]*logslog.Logger // per (goroutine, logger): With("worker", g) derived from the shared one
+	bridges []*stdlog.Logger           // per logger: the std log bridge at Info severity, shared by all goroutines
 }
 
 // slogChild: the goroutine's own log/slog logger, derived on first use (concurrently with the others)
@@ -88,6 +91,7 @@ func (e *poolEnv) slogBases() {
 	for li, l := range e.loggers {
 		h := slog.NewSlogHandler(l, &slog.HandlerOptions{NoColor: !l.ColorMode(), JSON: l.JSONMode(), Level: l.Level()})
 		e.hgrp[li] = logslog.New(h).With("base", li).WithGroup("req")
+		e.bridges = append(e.bridges, slog.NewLogLogger(l, slog.InfoLevel))
 	}
 }
 
@@ -190,6 +194,13 @@ func (e *poolEnv) args(c *poolCall) []any {
 		return []any{e.more[0], e.more[3], e.more[4], e.shared}
 	case 13:
 		return []any{slog.Any("asvalue", e.sharedV), e.more[2]}
+	case 14: // more attributes than any call before it (the pooled attribute slices have to grow)
+		n := 120 + c.ID%90
+		a := make([]any, 0, 2*n)
+		for i := 0; i < n; i++ {
+			a = append(a, fmt.Sprintf("b%03d", (i*7)%n), i)
+		}
+		return a
 	}
 	return []any{"dur", time.Duration(c.ID) * time.Millisecond, "when", e.ts, "b", []byte("x")}
 }
@@ -204,6 +215,10 @@ func (e *poolEnv) issue(c *poolCall) {
 		} else {
 			l.Println(c.Msg)
 		}
+		return
+	}
+	if c.Bridge {
+		e.bridges[c.Logger].Print(c.Msg)
 		return
 	}
 	if c.Slog {
@@ -273,6 +288,9 @@ func poolStress(args []string) int {
 		for c := 0; c < N; c++ {
 			pc := &poolCall{ID: len(calls) + 1, G: g + 1, C: c + 1, Logger: rng.Intn(nLoggers), Sev: sevs[rng.Intn(len(sevs))],
 				Thru: rng.Intn(2) == 0, ArgKind: rng.Intn(14)}
+			if rng.Intn(25) == 0 {
+				pc.ArgKind = 14
+			}
 			pc.Msg = fmt.Sprintf("call#%06d#", pc.ID)
 			if rng.Intn(4) == 0 {
 				pc.Msg += "\nsecond line\nthird"
@@ -292,7 +310,9 @@ func poolStress(args []string) int {
 			if rng.Intn(12) == 0 { // a blank Print/Println: delivered as a single newline
 				pc.Sev, pc.Msg, pc.Blank, pc.Thru = slog.AlwaysLevel, []string{"", " ", "\n"}[rng.Intn(3)], true, false
 			}
-			if !pc.Blank && rng.Intn(6) == 0 && (pc.Sev == slog.InfoLevel || pc.Sev == slog.WarnLevel || pc.Sev == slog.ErrorLevel || pc.Sev == slog.DebugLevel) {
+			if !pc.Blank && rng.Intn(9) == 0 {
+				pc.Bridge, pc.Thru, pc.Sev = true, false, slog.InfoLevel
+			} else if !pc.Blank && rng.Intn(6) == 0 && (pc.Sev == slog.InfoLevel || pc.Sev == slog.WarnLevel || pc.Sev == slog.ErrorLevel || pc.Sev == slog.DebugLevel) {
 				pc.Slog, pc.Thru = true, false
 			}
 			calls = append(calls, pc)
